@@ -41,6 +41,39 @@ fn main() {
                 std::process::exit(3);
             }
         }
+        "selftest" => {
+            // generator acceptance rates and a sample, for eyeballing
+            use nqv::gen_ops::{OpOpts, gen_doc_once};
+            use nqv::gen_schema::{SchemaOpts, gen_schema};
+            use nqv::render::{render_exec_plain, render_ts_plain};
+            use nqv::schema_ix::SchemaIx;
+            use nqv::validate::{validate_operations, validate_type_system, validate_unimplemented_rules};
+            let mut rng = nqv::rng::Rng::new(7);
+            let (mut s_ok, mut s_all, mut o_ok, mut o_all) = (0, 0, 0, 0);
+            let mut reasons: std::collections::BTreeMap<String, usize> = Default::default();
+            for i in 0..400 {
+                let so = SchemaOpts::default_for(&mut rng);
+                let doc = gen_schema(&mut rng, &so);
+                s_all += 1;
+                let iss = validate_type_system(&doc);
+                if !iss.is_empty() {
+                    *reasons.entry(format!("S:{}", iss[0].rule)).or_default() += 1;
+                    if i < 3 { println!("REJECT {:?}", iss[0]); }
+                    continue;
+                }
+                s_ok += 1;
+                let ix = SchemaIx::new(&doc);
+                for _ in 0..3 {
+                    let d = gen_doc_once(&mut rng, &ix, &OpOpts::standard());
+                    o_all += 1;
+                    let mut iss = validate_operations(&ix, &d);
+                    iss.extend(validate_unimplemented_rules(&ix, &d));
+                    if iss.is_empty() { o_ok += 1; } else { *reasons.entry(format!("O:{}", iss[0].rule)).or_default() += 1; if o_all < 40 { println!("OPREJECT {:?}\n{}", iss[0], render_exec_plain(&d)); } }
+                    if i == 5 { println!("{}\n-----\n{}", render_ts_plain(&doc), render_exec_plain(&d)); }
+                }
+            }
+            println!("schemas ok {s_ok}/{s_all}; operations ok {o_ok}/{o_all}; {reasons:?}");
+        }
         "classify" => {
             let text = std::fs::read_to_string(&args[2]).expect("read case file");
             let v: Value = serde_json::from_str(&text).expect("case file is JSON");
